@@ -6,6 +6,7 @@ package harness
 // real classic-BPF program the code installed, executed in the x/net/bpf VM.
 
 import (
+	"syscall"
 	"runtime"
 	"container/heap"
 	"context"
@@ -397,10 +398,20 @@ func portIsFree(kind string, a netip.Addr, port uint16) bool {
 	ap := netip.AddrPortFrom(a, port)
 	if kind == "udp" {
 		c, err := net.ListenUDP("udp", net.UDPAddrFromAddrPort(ap))
+		if err == nil {
+			c.Close()
+			return true
+		}
+		// a port whose holder allows address reuse is handed out again to any socket that allows it too (and the
+		// kernel's automatic port choice then no longer treats it as taken)
+		lc := net.ListenConfig{Control: func(network, address string, rc syscall.RawConn) error {
+			return rc.Control(func(fd uintptr) { syscall.SetsockoptInt(int(fd), syscall.SOL_SOCKET, syscall.SO_REUSEADDR, 1) })
+		}}
+		pc, err := lc.ListenPacket(context.Background(), "udp", ap.String())
 		if err != nil {
 			return false
 		}
-		c.Close()
+		pc.Close()
 		return true
 	}
 	l, err := net.ListenTCP("tcp", net.TCPAddrFromAddrPort(ap))
